@@ -15,7 +15,7 @@ import vlib
 
 PID = "C10"
 SPEC, CFG, DIAG = "Tr_Control.tla", "Tr_Control.cfg", "Tr_Control_diag.cfg"
-SIZES = {"quick": dict(runs=320, files=16), "thorough": dict(runs=20000, files=64)}
+SIZES = {"quick": dict(runs=240, files=16, enum_len=4, enum_sample=170), "thorough": dict(runs=14000, files=64, enum_len=4, enum_sample=None)}
 
 
 def model_check(rep, wd, tier):
@@ -48,6 +48,18 @@ def run(tier, seed):
     for i in range(sz["runs"]):
         kind, script = ctlrun.gen_script(rnd)
         jobs.append((i, kind, script, rnd.randint(1, 10**9), rnd.choice(sessions.NETS)))
+    # every command order of length <= enum_len over a 9-command alphabet (7380 for length 4): all of length <= 2 always,
+    # the longer ones all (thorough) or a seeded sample (quick)
+    seqs = ctlrun.enum_scripts(sz["enum_len"])
+    short = [q for q in seqs if len(q) <= 2]
+    longer = [q for q in seqs if len(q) > 2]
+    if sz["enum_sample"] is not None:
+        longer = rnd.sample(longer, max(0, sz["enum_sample"] - len(short)))
+    for q in short + longer:
+        kind, script = ctlrun.enum_script(q, rnd)
+        jobs.append((len(jobs), kind, script, rnd.randint(1, 10**9), rnd.choice(sessions.NETS)))
+    rep.cov["enumerated_command_orders"] = {"alphabet": ctlrun.ENUM_ALPHABET, "max_length": sz["enum_len"], "all_of_that_length": len(seqs),
+                                            "run": len(short) + len(longer)}
 
     bad = []          # once a few runs hung or crashed there is no point in waiting for hundreds of watchdog time-outs
 
@@ -115,7 +127,7 @@ def run(tier, seed):
     rep.cov["evaluations"] = len(jobs)
     rep.cov["distinct_nontrivial"] = len({(json.dumps(j[2]), j[3]) for j in jobs})
     rep.cov["rule"] = ("seeded command scripts {go/finish, go/stop, ponder/ponderhit, ponder/stop, back-to-back go, Threads change between searches, quit during "
-                       "search, mixed} x Threads 1..8 x seeded PCT-style schedule perturbation at the hooked synchronisation points; distinct (script, schedule seed)")
+                       "search, mixed, and every command order of length <= 2 plus a seeded sample of the orders of length 3..4 over a 9-command alphabet} x Threads 1..8 x seeded PCT-style schedule perturbation at the hooked synchronisation points; distinct (script, schedule seed)")
     rep.assumptions += ["real-code schedules are sampled (seeded priority perturbation), not enumerated; exhaustive interleaving coverage is on the TLA+ design model only",
                         "events carry a global sequence number taken inside the critical section that protects the state change"]
     return rep.finish()
